@@ -43,7 +43,7 @@ class Session:
         harness.install_clock(reset=store is None)      # a new repository starts its own time line (ms since EPOCH stay small for TLC)
         enc = graph != 'plain'
         st = harness.settings(encrypted=enc, min_length=min_length, max_length=max_length, cipher=cipher, hashing=hashing)
-        cache_of = (lambda u: cache.get(u) if isinstance(cache, dict) else cache)
+        cache_of = (lambda u: cache.get(u) if isinstance(cache, dict) else str(self.root / ('cache-of-' + u)) if cache == '__private__' else cache)
         w = self.world
         # odd seeds create the additional keys WITHOUT KDF settings (the default path of add-key)
         fk = (lambda: None) if seed % 2 else (lambda: {'encryption': {'kdf': dict(harness.FAST_KDF)}})  # noqa: E731
